@@ -31,7 +31,7 @@ Definition success (o : observed) : bool :=
 (* split on whatever the goal still branches on *)
 Ltac unfold_defs :=
   unfold authenticate, p_token, p_code, p_refresh, p_cc, p_te, p_bearer, p_device, p_introspect, p_revoke,
-    p_device_authz, l_token, l_with_client, l_parse, l_verify_client, l_introspect, l_revoke, l_device_authz,
+    p_device_authz, l_token, l_with_client, l_parse, l_verify_client, l_introspect, l_revoke, l_device_authz, nobody_reg, names_nobody,
     private_jwt, by_secret, client_id_from_request, device_client_authenticated, parse_creds, secret_check, cc_secret_check, secret_ok,
     cc_secret_ok, storage_secret_ok, assertion_opt_ok, assertion_ok, nonempty, bearer_ok, r4, r5, read_grant, visible, seen, src_dispatch_p, src_dispatch_l,
     src_with_client, src_verify_client, src_client, src_artefact, src_device_code_p,
@@ -75,7 +75,7 @@ Proof.
   intro i; open_input i; cbn [i_endpoint i_cfg i_reg i_pres i_grant i_router i_pl i_prev].
   all: intros -> Hgap Hno.
   all: unfold model, known_gap in *; cbn [i_endpoint i_cfg i_reg i_pres i_grant i_router i_pl i_prev] in *.
-  all: destruct p as [| |[] ?| |[]|[]| | | |[] []|?|?|?|?|?]; try discriminate Hno; clear Hno.
+  all: destruct p as [| |[] ?| |[]|[]| | | |[] []|?|?|?|?|?|[] []]; try discriminate Hno; clear Hno.
   all: destruct r, g; cbn in Hgap |- *; destruct meth; cbn in Hgap |- *; split_goal.
 Qed.
 
@@ -90,7 +90,7 @@ Proof.
   all: intros -> Hgap Hno.
   all: unfold model, known_gap in *; cbn [i_endpoint i_cfg i_reg i_pres i_grant i_router i_pl i_prev] in *.
   all: destruct r, g; try discriminate Hgap.
-  all: destruct p as [| |[] ?| |[]|[]| | | |[] []|?|?|?|?|?]; try discriminate Hno; clear Hno.
+  all: destruct p as [| |[] ?| |[]|[]| | | |[] []|?|?|?|?|?|[] []]; try discriminate Hno; clear Hno.
   all: destruct meth; cbn; split_goal; split; reflexivity.
 Qed.
 
@@ -100,7 +100,7 @@ Lemma introspect_success_justified : forall i,
 Proof.
   intro i; open_input i; cbn [i_endpoint i_cfg i_reg i_pres i_grant i_router i_pl i_prev].
   all: intros -> Hno; unfold model; cbn [i_endpoint i_cfg i_reg i_pres i_grant i_router i_pl i_prev] in *.
-  all: destruct p as [| |[] ?| |[]|[]| | | |[] []|?|?|?|?|?]; try discriminate Hno; clear Hno.
+  all: destruct p as [| |[] ?| |[]|[]| | | |[] []|?|?|?|?|?|[] []]; try discriminate Hno; clear Hno.
   all: destruct r, meth; cbn; split_goal.
 Qed.
 
@@ -110,7 +110,7 @@ Lemma revoke_success_justified : forall i,
 Proof.
   intro i; open_input i; cbn [i_endpoint i_cfg i_reg i_pres i_grant i_router i_pl i_prev].
   all: intros -> Hno; unfold model; cbn [i_endpoint i_cfg i_reg i_pres i_grant i_router i_pl i_prev] in *.
-  all: destruct p as [| |[] ?| |[]|[]| | | |[] []|?|?|?|?|?]; try discriminate Hno; clear Hno.
+  all: destruct p as [| |[] ?| |[]|[]| | | |[] []|?|?|?|?|?|[] []]; try discriminate Hno; clear Hno.
   all: destruct r, meth; cbn; split_goal.
 Qed.
 
@@ -120,7 +120,7 @@ Lemma device_authz_success_justified : forall i,
 Proof.
   intro i; open_input i; cbn [i_endpoint i_cfg i_reg i_pres i_grant i_router i_pl i_prev].
   all: intros -> Hno; unfold model; cbn [i_endpoint i_cfg i_reg i_pres i_grant i_router i_pl i_prev] in *.
-  all: destruct p as [| |[] ?| |[]|[]| | | |[] []|?|?|?|?|?]; try discriminate Hno; clear Hno.
+  all: destruct p as [| |[] ?| |[]|[]| | | |[] []|?|?|?|?|?|[] []]; try discriminate Hno; clear Hno.
   all: destruct r, meth; cbn; split_goal.
 Qed.
 
@@ -136,7 +136,7 @@ Lemma refusal_shape_model : forall i,
 Proof.
   intro i; open_input i; unfold model; cbn [i_endpoint i_cfg i_reg i_pres i_grant i_router i_pl i_prev].
   all: destruct e; [destruct g| | |]; destruct r;
-    destruct p as [| |[] ?| |[]|[]| | | |[] []|?|?|[[] ?]|[[] ?]|[[] ?]], meth; cbn; split_goal.
+    destruct p as [| |[] ?| |[]|[]| | | |[] []|?|?|[[] ?]|[[] ?]|[[] ?]|[] []], meth; cbn; split_goal.
 Qed.
 
 Lemma self_never_other : forall i,
@@ -159,7 +159,7 @@ Proof.
   2:{ intros _. pose proof (self_never_other i En) as H.
       destruct (model i) as [s e tok act w| |]; try exact I. destruct s, w; try exact I; contradiction. }
   revert En; open_input i; cbn [i_pres]; intro En.
-  all: destruct p as [| |[] ?| |[]|[]| | | |[] []|?|?|[[] ?]|[[] ?]|[[] ?]]; try discriminate En; clear En.
+  all: destruct p as [| |[] ?| |[]|[]| | | |[] []|?|?|[[] ?]|[[] ?]|[[] ?]|[] []]; try discriminate En; clear En.
   all: unfold model, other_gap; cbn [i_endpoint i_cfg i_reg i_pres i_grant i_router i_pl i_prev].
   all: destruct e; [destruct g| | |]; destruct r; cbn; intro Hgap; split_goal; try exact I.
 Qed.
@@ -188,7 +188,7 @@ Lemma names_other_model : forall i,
   end.
 Proof.
   intro i; open_input i; cbn [i_pres]; intro Hno.
-  all: destruct p as [| |[] ?| |[]|[]| | | |[] []|?|?|[[] ?]|[[] ?]|[[] ?]]; try discriminate Hno; clear Hno.
+  all: destruct p as [| |[] ?| |[]|[]| | | |[] []|?|?|[[] ?]|[[] ?]|[[] ?]|[] []]; try discriminate Hno; clear Hno.
   all: unfold model; cbn [i_endpoint i_cfg i_reg i_pres i_grant i_router i_pl i_prev].
   all: destruct e; [destruct g| | |]; destruct r; cbn; split_goal; exact I.
 Qed.
@@ -476,7 +476,7 @@ Proof.
   destruct (success (model (mkInput r e c rg p g pl pv))) eqn:Hs; [|reflexivity].
   assert (Hno : names_other p = false) by (destruct p; try discriminate Hh; reflexivity).
   assert (Hp : presents_right_secret p = false)
-    by (destruct p as [| |[] ?| |[]|[]| | | |[] []|?|?|?|?|?]; try discriminate Hh; reflexivity).
+    by (destruct p as [| |[] ?| |[]|[]| | | |[] []|?|?|?|?|?|[] []]; try discriminate Hh; reflexivity).
   assert (Ha : presents_ok_assertion p = false) by (destruct p; try discriminate Hh; reflexivity).
   destruct He as [->|[-> Hg]].
   - pose proof (introspect_statement r c rg p g pl pv Hno Hs) as H.
